@@ -121,6 +121,9 @@ class QsetM(SymVal):
                 if isinstance(v, types.FunctionType) and (name in self.INLINE or _new_private(self, name)):
                     fi = source.of_function(v); self.inlined[fi.key] = fi
                     return BoundSource(fi, v, c, self)
+                from pyvc.interp import private_helper as _ph
+                _ok, _v = _ph(it, self.cls, name, self, getattr(self, 'inlined', None))
+                if _ok: return _v
                 raise Outside(f'qset.{name} (no contract)')
         raise PyExc(AttributeError, (name,))
     def sym_setattr(self, it, name, v):
